@@ -121,18 +121,26 @@ Theorem C01_handle_close_reopen : forall bs ofs key, 0 < bs -> forall s L E ct r
     /\ fsize s' = fsize s /\ mr s' = r /\ mw s' = w /\ chg s' = false.
 Proof. exact close_open_ok. Qed.
 
-(* truncate to the current size is a seek to the end; truncate to a larger size appends zeros (as many as the allocator allows;
-   the call reports success exactly when all were stored).  Shrinking is NOT proved: it is decided by the correspondence and the
-   histories only (C01_handle_truncate is partial in that sense) *)
-Theorem C01_handle_truncate_same_partial : forall bs ofs key, 0 < bs -> forall s L E ct al, Inv bs ofs key s L E -> Repr bs s L ct -> mw s = true ->
+(* truncate: to the current size it is a seek to the end; to a larger size it appends zeros (as many as the allocator allows; the call
+   reports success exactly when all were stored); to a smaller size it cuts the content, the block lists become the prefixes the new
+   size needs (the header table / the last kept extension block are cleared behind them, the extension chain is cut), the position is
+   the new end.  Spec/FsSpec.v: resize ct size = firstn size ct, resp. ct ++ zeros. *)
+Theorem C01_handle_truncate_same : forall bs ofs key, 0 < bs -> forall s L E ct al, Inv bs ofs key s L E -> Repr bs s L ct -> mw s = true ->
   exists s', fio_truncate bs ofs nobad s (fsize s) al = (true, s', [], al) /\ Inv bs ofs key s' L E /\ Repr bs s' L ct /\ pos s' = fsize s /\ fsize s' = fsize s.
 Proof. exact fio_truncate_same_ok. Qed.
 
-Theorem C01_handle_truncate_grow_partial : forall bs ofs key, 0 < bs -> forall s L E ct al sizeNew,
+Theorem C01_handle_truncate_grow : forall bs ofs key, 0 < bs -> forall s L E ct al sizeNew,
   Inv bs ofs key s L E -> Repr bs s L ct -> mw s = true -> al_ok key L E al -> fsize s < sizeNew ->
   exists ok s' al' L' E' w, fio_truncate bs ofs nobad s sizeNew al = (ok, s', [], al') /\ Inv bs ofs key s' L' E' /\ Repr bs s' L' (ct ++ zerosZ w)
     /\ 0 <= w <= sizeNew - fsize s /\ (ok = true <-> w = sizeNew - fsize s) /\ pos s' = fsize s' /\ fsize s' = fsize s + w.
 Proof. exact fio_truncate_grow_ok. Qed.
+
+Theorem C01_handle_truncate_shrink : forall bs ofs key, 0 < bs -> forall s L E ct al new, Inv bs ofs key s L E -> Repr bs s L ct -> mw s = true -> 0 <= new < fsize s ->
+  let n' := size2db new bs in let x' := db2ext n' in
+  let L' := firstn (Z.to_nat n') L in let E' := firstn (Z.to_nat x') E in
+  exists s' rem, fio_truncate bs ofs nobad s new al = (true, s', rem, al) /\ Inv bs ofs key s' L' E' /\ Repr bs s' L' (firstn (Z.to_nat new) ct)
+    /\ pos s' = new /\ fsize s' = new.
+Proof. exact fio_truncate_shrink_ok. Qed.
 
 (* the arithmetic the model uses is the arithmetic of the C source (functions regenerated from adf_file_util.h / adf_file.c) *)
 Theorem C01_model_arithmetic_is_librarys : forall bs, valid_bs bs ->
@@ -157,7 +165,12 @@ Example C01_handle_example :
   let d := fio_close 488 true s3 in
   let '(_, s4) := fio_open 488 true nobad d 900 true false in
   let '(_, bytes) := fio_read 488 true nobad s4 5000 in
-  w1 = 1100 /\ w3 = 12 /\ bytes = splice data 480 [7; 7; 7; 7; 7; 7; 7; 7; 7; 7; 7; 7] /\ length bytes = 1100%nat.
+  let '(_, s5) := fio_open 488 true nobad d 900 true true in
+  let '(okt, s6, rem, _) := fio_truncate 488 true nobad s5 500 [] in
+  let '(_, s7) := fio_seek 488 true nobad s6 0 in
+  let '(_, bytes2) := fio_read 488 true nobad s7 5000 in
+  w1 = 1100 /\ w3 = 12 /\ bytes = splice data 480 [7; 7; 7; 7; 7; 7; 7; 7; 7; 7; 7; 7] /\ length bytes = 1100%nat
+  /\ okt = true /\ rem = [903] /\ bytes2 = firstn 500 bytes.
 Proof. vm_compute. repeat split; reflexivity. Qed.
 
 Print Assumptions C01_geometry_pos.
@@ -175,6 +188,7 @@ Print Assumptions C01_handle_seek.
 Print Assumptions C01_handle_write.
 Print Assumptions C01_handle_write_readonly.
 Print Assumptions C01_handle_close_reopen.
-Print Assumptions C01_handle_truncate_same_partial.
-Print Assumptions C01_handle_truncate_grow_partial.
+Print Assumptions C01_handle_truncate_same.
+Print Assumptions C01_handle_truncate_grow.
+Print Assumptions C01_handle_truncate_shrink.
 Print Assumptions C01_model_arithmetic_is_librarys.
